@@ -844,7 +844,7 @@ class BinaryOperatorDefinition:
     @classmethod
     def power(cls) -> 'BinaryOperatorDefinition':
         t = DataType.NUMBER
-        return cls('**', t, t, t, infix=True, commutative=False, associative=True)
+        return cls('**', t, t, t, infix=True, commutative=False)
 
     @classmethod
     def implication(cls) -> 'BinaryOperatorDefinition':
@@ -869,12 +869,12 @@ class BinaryOperatorDefinition:
     @classmethod
     def equality(cls) -> 'BinaryOperatorDefinition':
         t = DataType.PRIMITIVE
-        return cls('=', t, t, DataType.BOOL, infix=True, commutative=True, associative=True)
+        return cls('=', t, t, DataType.BOOL, infix=True, commutative=True)
 
     @classmethod
     def inequality(cls) -> 'BinaryOperatorDefinition':
         t = DataType.PRIMITIVE
-        return cls('!=', t, t, DataType.BOOL, infix=True, commutative=True, associative=True)
+        return cls('!=', t, t, DataType.BOOL, infix=True, commutative=True)
 
     @classmethod
     def less_than(cls) -> 'BinaryOperatorDefinition':
